@@ -237,7 +237,7 @@ prop("C10",
      assumptions=[])
 _c10_pairs = [(0, 0), (1, 0), (1, 1), (8, 1), (9, 1), (10, 1), (16, 2), (17, 2), (18, 2), (5, 0), (25, 3), (24, 3), (26, 3), (33, 4), (40, 4), (40, 5), (40, 0), (3, 255), (40, 255), (40, 128)]
 for l, c in _c10_pairs:
-    add("C10", H("column", "c10_n1_unpack_l%d_c%d" % (l, c), "quick" if (l, c) in ((9, 1), (17, 2), (26, 3), (40, 5)) else "thorough", ["C10.N1"],
+    add("C10", H("column", "c10_n1_unpack_l%d_c%d" % (l, c), "quick" if (l, c) in ((9, 1), (17, 2), (26, 3)) else "thorough", ["C10.N1"],
                  "node bytes [u8;40]; length %d, trailing count byte %d" % (l, c), "unwind 42", 1500, 10, unwind=42, stubs=FMT_STUB))
 
 # ======================================================================================== C08 (mapsub build)
@@ -344,7 +344,7 @@ add("C07", H("db", "c07_k1_counted_dereference_leaves_overlay_alone", "quick", [
 _ms("C07")
 PROPS["C07"]["functions"] += ["IndexedChangeSet::{copy_to_overlay, clean_overlay} (ref-counted arms)"]
 
-add("C13", H("log", "c13_p2i_index_validate_b16", "quick", ["C13.P2"], "page number:u64, 8 mask bytes, available bytes 0..=0x400", "index size 16; unwind 66", 1200, 8, unwind=66, stubs=ENV + RDSTUB, replay="solver-trace-only"))
+add("C13", H("log", "c13_p2i_index_validate_b16", "thorough", ["C13.P2"], "page number:u64, 8 mask bytes, available bytes 0..=0x400", "index size 16; unwind 66", 1200, 8, unwind=66, stubs=ENV + RDSTUB, replay="solver-trace-only"))
 add("C13", H("log", "c13_p2i_index_validate_b20", "thorough", ["C13.P2"], "as b16", "index size 20; unwind 66", 1200, 8, unwind=66, stubs=ENV + RDSTUB, replay="solver-trace-only"))
 # c13_p3_enact_logs_validation_gate (harness/db.rs) is NOT registered: DbInner::enact_logs drops `Error` values on its
 # reject paths and CBMC does not get through the drop glue of io::Error's boxed `dyn Error` payload (3 probes, 7-20 min
